@@ -367,6 +367,38 @@ fn bridge_types(items: &mut Vec<Item>) -> Vec<(String, &'static str)> {
     v
 }
 
+/// names (sorted, deduplicated) of plain bridge structs of the original source that another such struct nests by value
+fn nested_by_value_structs(items: &mut Vec<Item>) -> Vec<String> {
+    let all: Vec<String> = bridge_types(items).into_iter().filter(|(_, k)| *k == "struct").map(|(n, _)| n).collect();
+    let mut out: Vec<String> = vec![];
+    for_each_bridge(items, &mut |m| {
+        if m.ident.to_string().contains("_verif_shadow_") {
+            return;
+        }
+        if let Some((_, inner)) = &m.content {
+            for i in inner {
+                if let Item::Struct(s) = i {
+                    if s.ident.to_string().contains("VerifExtra") || !s.generics.params.is_empty() {
+                        continue;
+                    }
+                    for f in s.fields.iter() {
+                        if let syn::Type::Path(tp) = &f.ty {
+                            if let Some(id) = tp.path.get_ident() {
+                                if all.contains(&id.to_string()) && *id != s.ident {
+                                    out.push(id.to_string());
+                                }
+                            }
+                        }
+                    }
+                }
+            }
+        }
+    });
+    out.sort();
+    out.dedup();
+    out
+}
+
 fn shadow_mod_name(k: u32, last: bool) -> String {
     format!("{}_verif_shadow_{}", if last { "zzz" } else { "aaa" }, k)
 }
@@ -379,7 +411,14 @@ fn insert_shadow_module(items: &mut Vec<Item>, k: u32, rng: &mut Rng) -> bool {
     if types.is_empty() {
         return false;
     }
-    let (name, kind) = types[rng.below(types.len() as u32) as usize].clone();
+    // half of the time a struct that some other struct of the original source nests by value, if there is one
+    // (backends compute nested layouts / conversions from the nested type: a same-named type is the interesting case)
+    let nested = nested_by_value_structs(items);
+    let (name, kind) = if !nested.is_empty() && rng.chance(1, 2) {
+        (nested[rng.below(nested.len() as u32) as usize].clone(), "struct")
+    } else {
+        types[rng.below(types.len() as u32) as usize].clone()
+    };
     let ident = syn::Ident::new(&name, proc_macro2::Span::call_site());
     let modname = syn::Ident::new(&shadow_mod_name(k, rng.chance(1, 2)), proc_macro2::Span::call_site());
     let rename = format!("VerifShadow{}", k);
@@ -389,6 +428,13 @@ fn insert_shadow_module(items: &mut Vec<Item>, k: u32, rng: &mut Rng) -> bool {
         "struct" => parse_quote! { #[diplomat::attr(*, rename = #rename)] pub struct #ident { pub verif_a: u8, pub verif_b: i32 } },
         _ => parse_quote! { #[diplomat::attr(*, rename = #rename)] pub enum #ident { VerifA, VerifB } },
     };
+    // a shadow *struct* is also nested by value in a second new struct, whose name sorts before or after everything
+    let user: Option<Item> = if kind == "struct" {
+        let uid = syn::Ident::new(&format!("{}VerifShadowUser{}", if rng.chance(1, 2) { "Aa" } else { "Zz" }, k), proc_macro2::Span::call_site());
+        Some(parse_quote! { pub struct #uid { pub verif_inner: #ident, pub verif_tail: u8 } })
+    } else {
+        None
+    };
     // half of the shadow modules also live in their own namespace (backends with namespacing qualify names)
     let ns = format!("verifns{}", k);
     let m: Item = if rng.chance(1, 2) {
@@ -396,13 +442,13 @@ fn insert_shadow_module(items: &mut Vec<Item>, k: u32, rng: &mut Rng) -> bool {
             #[diplomat::bridge]
             #[diplomat::abi_rename = #abi]
             #[diplomat::attr(auto, namespace = #ns)]
-            pub mod #modname { #ty }
+            pub mod #modname { #ty #user }
         }
     } else {
         parse_quote! {
             #[diplomat::bridge]
             #[diplomat::abi_rename = #abi]
-            pub mod #modname { #ty }
+            pub mod #modname { #ty #user }
         }
     };
     let at = rng.below(items.len() as u32 + 1) as usize;
